@@ -9,5 +9,6 @@ CONSTANTS
   B <- BLive2
   MaxHist = 0
 VIEW view
-PROPERTIES Converges Released NotStuck BrokenGoes
+PROPERTIES Converges Released NotStuck BrokenGoes ReportedGoes
+INVARIANTS NoWorkForDraining
 CHECK_DEADLOCK FALSE
